@@ -53,4 +53,10 @@ theorem C13_search_reader_heap (cfg : Searcher.Config) (m : MatcherI) (σ : Scri
   · left; exact ⟨rfl, rfl⟩
   · right; rfl
 
+/-! Non-vacuity: the configuration with context and the matcher of `Props/C13` (`cfgCtx`, `mBC`, six lines) select
+the multi-line strategy, and the reader's log for a 1-byte / interrupted read script is the multi-line model. -/
+example : multiLineWithMatcher cfgCtx mBC = true ∧ cfgCtx.invertMatch = false ∧ cfgCtx.binary = .none := by decide
+example : (searchReader cfgCtx mBC allCont none (some 3) ⟨inp6, [.ret 1, .intr, .ret 2], 0⟩).events = mlSpec cfgCtx mBC inp6 := by
+  decide
+
 end RgVerif.Props.C13
